@@ -119,7 +119,7 @@ type vrtSrcStream struct {
 	halfMu   sync.Once
 	half     chan struct{}
 	inRecv   bool // guarded by h.mu
-	owner    *proxyStreamReceiver
+	lastReq  *adminservice.StreamWorkflowReplicationMessagesRequest
 }
 
 func (c *vrtSrcStream) Context() context.Context { return c.ctx }
@@ -166,7 +166,10 @@ func (c *vrtSrcStream) Send(req *adminservice.StreamWorkflowReplicationMessagesR
 	}
 	a := req.GetSyncReplicationState().GetInclusiveLowWatermark()
 	c.h.mu.Lock()
-	ev := map[string]interface{}{"ev": "SrcAck", "s": c.s, "inc": c.inc, "a": a}
+	// the receiver's keep-alive re-sends the very same request object; aggregated acks are fresh allocations
+	ka := req == c.lastReq
+	c.lastReq = req
+	ev := map[string]interface{}{"ev": "SrcAck", "s": c.s, "inc": c.inc, "a": a, "ka": ka}
 	c.h.srcAck[c.s] = a
 	c.h.emit(ev)
 	c.h.mu.Unlock()
@@ -193,6 +196,8 @@ func (c *vrtClient) StreamWorkflowReplicationMessages(ctx context.Context, _ ...
 		src := c.h.srcs[shard]
 		st.inc = src.inc
 		src.stream = st
+		// the new receiver incarnation exists from here on (before it registers its ack channel)
+		c.h.emit(map[string]interface{}{"ev": "SrcOpen", "s": shard, "inc": src.inc, "resume": c.h.srcAck[shard]})
 		c.h.mu.Unlock()
 	}
 	return st, nil
@@ -220,6 +225,7 @@ type vrtSrvStream struct {
 	trkHigh int64
 	hasHigh bool
 	trkQ    []int64
+	lastMsg time.Time
 }
 
 func (s *vrtSrvStream) Context() context.Context { return s.ctx }
@@ -324,7 +330,10 @@ func (s *vrtSrvStream) Send(resp *adminservice.StreamWorkflowReplicationMessages
 	} else {
 		droppedTasks = len(pids)
 	}
-	s.h.emit(map[string]interface{}{"ev": "TgtMsg", "t": s.shard, "inc": s.inc, "pids": pids, "high": high,
+	// the sender's keep-alive needs 1 s without a message on this stream
+	ka := len(pids) == 0 && !s.lastMsg.IsZero() && time.Since(s.lastMsg) > 900*time.Millisecond
+	s.lastMsg = time.Now()
+	s.h.emit(map[string]interface{}{"ev": "TgtMsg", "t": s.shard, "inc": s.inc, "pids": pids, "high": high, "ka": ka,
 		"tasks": tasks, "accepted": accepted, "dropped": droppedTasks, "panic": panicky, "payload_ok": payloadOK,
 		"prio": int(m.GetPriority())})
 	return nil
@@ -468,9 +477,6 @@ func (h *vrtHarness) openSrc(s int) bool {
 		_, act := h.sm.GetActiveReceiver(key)
 		return reg && act && src.stream != nil
 	}, 2*time.Second)
-	h.mu.Lock()
-	h.emit(map[string]interface{}{"ev": "SrcOpen", "s": s, "inc": src.inc, "registered": ok, "resume": h.srcAck[s]})
-	h.mu.Unlock()
 	return ok
 }
 
@@ -661,6 +667,12 @@ func (h *vrtHarness) exec(c vrtCmd) bool {
 
 // drain: the target clusters accept everything the proxy wants to send and complete every task, until quiescence.
 func (h *vrtHarness) drain() bool {
+	// a cooperative environment has every target connected
+	for t := 1; t <= h.sched.NT; t++ {
+		if !h.tgts[t].up && h.tgts[t].inc == 0 {
+			h.openTgt(t)
+		}
+	}
 	deadline := time.Now().Add(4 * h.cmdWait)
 	for time.Now().Before(deadline) {
 		progressed := false
